@@ -338,7 +338,7 @@ def r8_bins_size_strand(ctx):
                 n += 1
                 passed = [u(a) for a in c.args[2:3]] + [u(k.value) for k in c.keywords if k.arg == "is_stranded"]
                 ctx.ob(fi.where, f"{cname}.{mname} derives a table from the receiver's entries and hands on the receiver's strand flag", "self._is_stranded" in passed,
-                       u(c)[:140], key=f"C10-R8|strand-flag|{cname}|{mname}")
+                       u(c)[:140], key=f"C10-R8|strand-flag|{cname}|{mname}", definite=True)
     ctx.floor("derivations of stranded tables examined", n, 5)
 
 
